@@ -829,7 +829,6 @@ func Run(cfg vh.Config) (*vh.Result, error) {
 		res.OracleFailures = append(res.OracleFailures, vh.OracleFailure{Key: key, What: what, Case: c})
 	}
 	known := map[string]bool{}
-	skippedNew := map[string]int{}
 
 	runCase := func(c *Case) error {
 		c.Obs = nil
@@ -859,7 +858,7 @@ func Run(cfg vh.Config) (*vh.Result, error) {
 			}
 		}
 		// the property's own statement on the implementation
-		n := oracle(&cc, srv, fail, known, skippedNew)
+		n := oracle(&cc, srv, fail, known)
 		res.OracleEvaluations += n
 		return nil
 	}
@@ -913,9 +912,6 @@ func Run(cfg vh.Config) (*vh.Result, error) {
 		res.KnownReproduced = append(res.KnownReproduced, k)
 	}
 	sort.Strings(res.KnownReproduced)
-	for k, v := range skippedNew {
-		res.Notes = append(res.Notes, fmt.Sprintf("%d cases show the unlisted deviation %q (reported in notes/reports/C18.md; excluded from the oracle unless VERIF_C18_REPORT_NEW=1)", v, k))
-	}
 	sort.Strings(res.Notes)
 
 	per := cfg.Pick(300, 500)
